@@ -119,11 +119,11 @@ PROPS = {
     },
     "C11": {
         "level": "exploration",
-        "claim": "bounded: a designed + seeded corpus of declarations in the documented domain (12 reprs x 8 literal spellings, implicit/explicit mixes, repr and i64 limits, foreign attributes, 300-400 variants; thorough: 65534) must be accepted and every derived item must agree with `variant as repr` as assigned by rustc; never reported as proved",
-        "layers": ["C11", "IR"],
-        "explanation": "The discriminant evaluation walks syn ASTs, which neither verifier can take symbolically (see C12); what is decidable is the contract on the output per declaration. Complete per declaration (full domain for 8/16-bit try_from, every variant, every name probe), sampled over declarations.",
-        "technique": "bounded: per-declaration contract check of the real expansion (rustc + native oracle), stand-in for a function outside the verifiers' reach",
-        "note": "bounded exploration over declarations; trusted: rustc's `as` for the oracle side, the corpus generator's language rule for implicit discriminants",
+        "claim": "two parts, labelled separately. PROVED (Verus, unbounded over declarations): the discriminant evaluation of parse_values — the statement of the loop body and the two initialisations, sliced verbatim from /repo/src/parser/values.rs — associates with each variant exactly the value the language rule assigns (explicit literal, optionally negated; previous + 1; 0 first) and reaches no diagnostic (`emit_error!` has precondition false) for every declaration whose discriminants are implicit or (negated) integer literals within i64 and pairwise different (g_disc_init, g_disc_step, lemma_disc_sequence; loop threading checked structurally). BOUNDED, never reported as proved: a designed + seeded corpus of declarations in the documented domain (12 reprs x 8 literal spellings, implicit/explicit mixes, repr and i64 limits, foreign attributes, 300-400 variants; thorough: 65534) must be accepted by macro and rustc and every derived item must agree with `variant as repr` as assigned by rustc",
+        "layers": ["G", "C11", "IR"],
+        "explanation": "The arithmetic of the discriminant evaluation is within the verifier's reach once the syn types it pattern-matches on are replaced by shim types of the same shape; that part is discharged for all declarations. Attribute walking, literal spelling (syn's base10_digits, assumed by the contract of LitInt::base10_parse), repr lookup, the size limit and the acceptance of the generated code by rustc stay outside: for those the per-declaration contract check is the bounded stand-in. The level stays `exploration` because the property as a whole (accepted AND compiles) is decided only over the corpus.",
+        "technique": "contract-based deductive verification (Verus) of the discriminant evaluation sliced verbatim from parse_values + bounded per-declaration contract check of the real expansion (rustc + native oracle) for everything else",
+        "note": "bounded exploration over declarations for acceptance/compilation; proved for the discriminant arithmetic; trusted: shim types standing for syn::{Expr, ExprUnary, ExprLit, Lit, LitInt, UnOp, Variant} (same names and nesting; unnamed variants collapsed into `Other`), assumed contract of LitInt::base10_parse (parse succeeds iff the literal's value fits the target type), vstd's HashMap/Option/Result/TryFrom specifications, that the `for` loop runs the statement once per variant in declaration order (structural check), rustc's `as` for the oracle side, the corpus generator's language rule for implicit discriminants",
     },
     "C12": {
         "auxiliary": True,   # not registered in MANIFEST.json (listed under not_applicable): outside the technique family
